@@ -495,12 +495,8 @@ static Value builtin_cast_bool(Value *args) {
     } else if (arg.type == VAL_FLOAT) {
         return create_bool(arg.as.float_val != 0.0);
     } else if (arg.type == VAL_STRING) {
-        /* Parse string to bool */
-        if (strcmp(arg.as.string_val, "true") == 0 || strcmp(arg.as.string_val, "1") == 0) {
-            return create_bool(true);
-        } else {
-            return create_bool(false);
-        }
+        /* docs/STDLIB.md: an empty string is false, every other string is true */
+        return create_bool(arg.as.string_val != NULL && arg.as.string_val[0] != '\0');
     } else {
         fprintf(stderr, "Error: cast_bool cannot convert type to bool\n");
         return create_void();
